@@ -1,6 +1,7 @@
 import ZkModel.Basic
 import ZkModel.Hashers
 import ZkModel.Codec
+import ZkModel.TreeDriver
 /-!
 # Line-protocol driver: `zkmodel (model|spec) < ops` prints one canonical line per op.
 
@@ -63,6 +64,7 @@ def Env.h2f (e : Env) (b : List UInt8) : Nat :=
 
 structure St where
   env : Env
+  inst : Option TreeDriver.Inst := none
 
 def showOutcome (o : Outcome String) : String :=
   match o with
@@ -101,6 +103,16 @@ def parseNats (ws : List String) : Option (List Nat) :=
     | some v, some l => some (v :: l)
     | _, _ => none) (some [])
 
+def isHashOp (op : String) : Bool :=
+  op == "pub_poseidon" || op == "ffi_poseidon" || op == "h2f" || op == "pub_hash" || op == "ffi_hash" || op == "keccak"
+
+def treeStep (st : St) (w : List String) : St × String :=
+  match st.inst with
+  | some inst =>
+    let (inst', r) := TreeDriver.stepInst { H := st.env.H2, spec := st.env.mode == .spec } inst w
+    ({ st with inst := some inst' }, r)
+  | none => (st, "bad-op")
+
 def step (st : St) (line : String) : St × String :=
   let e := st.env
   match line.trimAscii.toString.splitOn " " with
@@ -124,15 +136,22 @@ def step (st : St) (line : String) : St × String :=
       (st, showOutcome (r.map fr))
     | _, _, _, _, _ => (st, "bad-op")
   | [op, bs] =>
-    match parseHexBytes bs with
-    | none => (st, "bad-op")
+    match (if isHashOp op then parseHexBytes bs else none) with
+    | none => treeStep st [op, bs]
     | some b =>
       if op == "pub_poseidon" || op == "ffi_poseidon" then (st, showOk ((pubPoseidon e b).map showBytes))
       else if op == "h2f" then (st, fr (e.h2f b))
       else if op == "pub_hash" || op == "ffi_hash" then (st, showOk ((pubHash e b).map showBytes))
       else if op == "keccak" then (st, showBytes (Keccak.keccak256 b))
-      else (st, "bad-op")
-  | _ => (st, "bad-op")
+      else treeStep st [op, bs]
+  | ["tree", "new", backend, depth] =>
+    match depth.toNat? with
+    | some d =>
+      match TreeDriver.newInst { H := e.H2, spec := e.mode == .spec } backend d with
+      | some inst => ({ st with inst := some inst }, "ok")
+      | none => (st, "bad-op")
+    | none => (st, "bad-op")
+  | w => treeStep st w
 
 partial def loop (h : IO.FS.Stream) (out : IO.FS.Stream) (st : St) : IO Unit := do
   let line ← h.getLine
